@@ -126,6 +126,8 @@ impl<T: Qcow2IoOps> Qcow2Dev<T> {
         }
     }
 
+    pub(crate) const SLICE_LOAD_RETRIES: usize = 16;
+
     #[inline]
     pub(crate) async fn get_l2_slice_slow(
         &self,
@@ -142,19 +144,22 @@ impl<T: Qcow2IoOps> Qcow2Dev<T> {
             split.guest_addr(),
         );
 
-        self.add_l2_slice(
-            l1_e,
-            key,
-            split.l2_slice_off_in_table(info),
-            L2Table::new(None, 1 << info.l2_slice_bits, info.cluster_bits()),
-        )
-        .await?;
+        // the loaded slice may be evicted by someone else before it is
+        // looked up, so retry
+        for _ in 0..Self::SLICE_LOAD_RETRIES {
+            self.add_l2_slice(
+                l1_e,
+                key,
+                split.l2_slice_off_in_table(info),
+                L2Table::new(None, 1 << info.l2_slice_bits, info.cluster_bits()),
+            )
+            .await?;
 
-        if let Some(entry) = l2_cache.get(key) {
-            Ok(entry)
-        } else {
-            Err("Fail to load l2 table".into())
+            if let Some(entry) = l2_cache.get(key) {
+                return Ok(entry);
+            }
         }
+        Err("Fail to load l2 table".into())
     }
 
     #[inline]
